@@ -9,6 +9,9 @@
   SlaveService.on_connect  -> classic_update, on_connect_updates_own
   whole tree under rpyc/   -> config_writes, default_config_refs, safe_attrs_uses
   helpers.restricted       -> restricted_hooks, restricted_wattrs_default, restricted_aliases
+  class Service            -> service_hooks, service_denies_set, service_denies_del, service_defines_get_hook
+  whole tree under rpyc/   -> hook_definitions (every def/binding of _rpyc_getattr/_rpyc_setattr/_rpyc_delattr)
+  Connection._handle_pickle-> pickle_gate, pickle_refusal; shapes of the handlers that take no attribute name
 Anything that does not match raises Unrecognised: the item is then absent and the tie lemma stops compiling."""
 import glob
 from .core import *
@@ -557,6 +560,84 @@ def _restricted(htree):
             typed("restricted_wattrs_default_attrs", "bool", "true")]
 
 
+# ---------------------------------------------------------------- Service's own hooks, hook definitions anywhere, pickle gate
+
+HOOKS = ("_rpyc_getattr", "_rpyc_setattr", "_rpyc_delattr")
+
+
+def _service_hooks(stree):
+    """class Service: which of the three hooks it defines and what each does"""
+    cls = find_class(stree, "Service")
+    out = {}
+    for n in cls.body:
+        if isinstance(n, ast.FunctionDef) and n.name in HOOKS:
+            b = strip_doc(n.body)
+            want = ["self", "name", "value"] if n.name == "_rpyc_setattr" else ["self", "name"]
+            kind = "other"
+            if [x.arg for x in n.args.args] == want and len(b) == 1 and isinstance(b[0], ast.Raise) and b[0].cause is None \
+                    and isinstance(b[0].exc, ast.Call) and isinstance(b[0].exc.func, ast.Name) and b[0].exc.func.id in EXN:
+                kind = "deny:" + EXN[b[0].exc.func.id]
+            if n.name in out:
+                raise Unrecognised("Service.%s defined twice" % n.name)
+            out[n.name] = kind
+        elif isinstance(n, ast.Assign) and any(isinstance(t, ast.Name) and t.id in HOOKS for t in n.targets):
+            raise Unrecognised("Service hook bound by assignment")
+    return [typed("service_hooks", "list (string * string)",
+                  coq_list("(%s, %s)" % (coq_string(k), coq_string(out[k])) for k in sorted(out))),
+            typed("service_denies_set", "bool", coq_bool(out.get("_rpyc_setattr") == "deny:AttributeError")),
+            typed("service_denies_del", "bool", coq_bool(out.get("_rpyc_delattr") == "deny:AttributeError")),
+            typed("service_defines_get_hook", "bool", coq_bool("_rpyc_getattr" in out))]
+
+
+def _hook_definitions(repo):
+    """every definition or binding of a _rpyc_*attr hook anywhere under rpyc/ (a subclass overriding Service's denial,
+    a new hooked helper ... must show up here)"""
+    found = []
+    for path in sorted(glob.glob(os.path.join(repo, "rpyc", "**", "*.py"), recursive=True)):
+        rel = os.path.relpath(path, repo)
+        with open(path) as f:
+            tree = ast.parse(f.read(), rel)
+
+        def walk(node, scope):
+            for n in ast.iter_child_nodes(node):
+                if isinstance(n, (ast.FunctionDef, ast.AsyncFunctionDef)):
+                    if n.name in HOOKS:
+                        found.append((rel + ":" + ".".join(scope), n.name))
+                    walk(n, scope + [n.name])
+                elif isinstance(n, ast.ClassDef):
+                    walk(n, scope + [n.name])
+                else:
+                    if isinstance(n, (ast.Assign, ast.AnnAssign, ast.AugAssign)):
+                        tg = n.targets if isinstance(n, ast.Assign) else [n.target]
+                        for t in tg:
+                            nm = t.id if isinstance(t, ast.Name) else t.attr if isinstance(t, ast.Attribute) else None
+                            if nm in HOOKS:
+                                found.append((rel + ":" + ".".join(scope), "bind:" + nm))
+                    if isinstance(n, ast.Call) and isinstance(n.func, ast.Name) and n.func.id == "setattr" and len(n.args) >= 2 \
+                            and isinstance(n.args[1], ast.Constant) and n.args[1].value in HOOKS:
+                        found.append((rel + ":" + ".".join(scope), "bind:" + n.args[1].value))
+                    walk(n, scope)
+        walk(tree, [])
+    return typed("hook_definitions", "list (string * string)",
+                 coq_list("(%s, %s)" % (coq_string(a), coq_string(b)) for a, b in found))
+
+
+def _pickle_gate(cls):
+    fn = find_func(cls, "_handle_pickle")
+    b = strip_doc(fn.body)
+    if not (len(b) == 2 and isinstance(b[0], ast.If) and not b[0].orelse and len(b[0].body) == 1 and isinstance(b[0].body[0], ast.Raise)
+            and isinstance(b[0].test, ast.UnaryOp) and isinstance(b[0].test.op, ast.Not)
+            and isinstance(b[0].test.operand, ast.Subscript) and _u(b[0].test.operand.value) == "self._config"
+            and isinstance(b[0].test.operand.slice, ast.Constant) and _u(b[1]) == "return bytes(pickle.dumps(obj, proto))"):
+        raise Unrecognised("_handle_pickle shape")
+    ex = b[0].body[0].exc
+    ex = ex.func if isinstance(ex, ast.Call) else ex
+    if not (isinstance(ex, ast.Name) and ex.id in EXN):
+        raise Unrecognised("_handle_pickle refusal")
+    return [typed("pickle_gate", "string", coq_string(b[0].test.operand.slice.value)),
+            typed("pickle_refusal", "string", coq_string(ex.id))]
+
+
 # ---------------------------------------------------------------- entry point
 
 def translate(repo):
@@ -596,12 +677,23 @@ def translate(repo):
     guarded("on_connect", lambda: _on_connect(stree))
     guarded("scan", lambda: _scan_tree(repo))
     guarded("restricted", lambda: _restricted(htree))
+    guarded("service_hooks", lambda: _service_hooks(stree))
+    guarded("hook_definitions", lambda: _hook_definitions(repo))
+    guarded("pickle_gate", lambda: _pickle_gate(cls))
 
     # shapes of the code around it (any change is reported; re-snapshot after review)
     svc = find_class(stree, "Service")
+    ltree = parse(repo, "rpyc/lib/__init__.py")
     for nm, scope, fn in (("Connection._cleanup", cls, "_cleanup"), ("Connection.close", cls, "close"),
                           ("Connection._handle_call", cls, "_handle_call"), ("Service._connect", svc, "_connect"),
-                          ("MasterService.on_connect", find_class(stree, "MasterService"), "on_connect")):
+                          ("MasterService.on_connect", find_class(stree, "MasterService"), "on_connect"),
+                          # the handlers that take no attribute name (outside the policy theorems; see whole_object_handlers)
+                          ("Connection._handle_dir", cls, "_handle_dir"), ("Connection._handle_inspect", cls, "_handle_inspect"),
+                          ("Connection._handle_instancecheck", cls, "_handle_instancecheck"),
+                          ("Connection._handle_buffiter", cls, "_handle_buffiter"), ("Connection._handle_repr", cls, "_handle_repr"),
+                          ("Connection._handle_str", cls, "_handle_str"), ("Connection._handle_hash", cls, "_handle_hash"),
+                          ("Connection._handle_del", cls, "_handle_del"), ("Connection._handle_getroot", cls, "_handle_getroot"),
+                          ("lib.get_methods", ltree, "get_methods")):
         try:
             items.append(shape(nm, func_shape(find_func(scope, fn))))
         except Unrecognised as e:
